@@ -254,3 +254,235 @@ Proof.
     + intros E. subst. eapply topo_acyclic; eassumption.
     + right. split; [|exact Hr]. eapply prec_In. eapply reach_prec; eassumption.
 Qed.
+
+(* ------------------------------------------------------------------------- *)
+(* one hoisting step = a stable partition of the window behind the loop node  *)
+(* ------------------------------------------------------------------------- *)
+
+Lemma split_at_spec : forall r l p q, split_at r l = Some (p, q) -> l = p ++ r :: q /\ ~ In r p.
+Proof.
+  intros r. induction l as [|x t IH]; simpl; intros p q H; [discriminate|].
+  destruct (Pos.eqb x r) eqn:E.
+  - apply Pos.eqb_eq in E. inversion H; subst. simpl. tauto.
+  - apply Pos.eqb_neq in E. destruct (split_at r t) as [[a b]|] eqn:Hs; [|discriminate].
+    inversion H; subst. destruct (IH a q eq_refl) as [H1 H2]. subst t. simpl. split; [reflexivity|].
+    intros [Hx | Hx]; [congruence | tauto].
+Qed.
+
+Lemma split_at_In : forall r l, In r l -> exists p q, split_at r l = Some (p, q).
+Proof.
+  intros r. induction l as [|x t IH]; simpl; intros H; [tauto|].
+  destruct (Pos.eqb x r) eqn:E.
+  - eexists. eexists. reflexivity.
+  - apply Pos.eqb_neq in E. destruct H as [H | H]; [congruence|].
+    destruct (IH H) as [p [q Hs]]. rewrite Hs. eexists. eexists. reflexivity.
+Qed.
+
+Definition lift (D : node -> bool) (pre : list node) (r : node) (mid post : list node) : list node :=
+  pre ++ filter (fun x => negb (D x)) mid ++ r :: filter D mid ++ post.
+
+Lemma filter_partition_perm : forall (f : node -> bool) l,
+  Permutation (filter (fun x => negb (f x)) l ++ filter f l) l.
+Proof.
+  intros f. induction l as [|x t IH]; simpl; [constructor|].
+  destruct (f x); simpl.
+  - apply Permutation_sym. apply Permutation_cons_app. apply Permutation_sym. exact IH.
+  - constructor. exact IH.
+Qed.
+
+Lemma lift_perm : forall D pre r mid post,
+  Permutation (lift D pre r mid post) (pre ++ r :: mid ++ post).
+Proof.
+  intros. unfold lift. apply Permutation_app_head.
+  apply Permutation_sym. apply Permutation_cons_app.
+  rewrite app_assoc. apply Permutation_app_tail. apply Permutation_sym. apply filter_partition_perm.
+Qed.
+
+(* the relative order of a before b survives the step unless b is lifted (b in the window, not
+   marked) and a stays behind (a is the loop node or a marked node of the window) *)
+Lemma lift_prec_keep : forall D pre r mid post a b,
+  prec (pre ++ r :: mid ++ post) a b ->
+  ~ (In b mid /\ D b = false /\ (a = r \/ (In a mid /\ D a = true))) ->
+  prec (lift D pre r mid post) a b.
+Proof.
+  intros D pre r mid post a b H Hn. unfold lift.
+  repeat (rewrite ?prec_app, ?prec_cons, ?in_app_iff in H; simpl in H).
+  repeat (rewrite ?prec_app, ?prec_cons, ?prec_filter, ?in_app_iff, ?filter_In; simpl).
+  rewrite ?negb_true_iff.
+  pose proof (prec_In mid a b) as Hmid.
+  destruct (D a) eqn:Da; destruct (D b) eqn:Db; intuition congruence.
+Qed.
+
+Lemma hoist_one_shape : forall D r l e,
+  In r l -> exists pre mid post,
+    l = pre ++ r :: mid ++ post /\ ~ In r pre /\ fst (hoist_one D r l e) = lift D pre r mid post.
+Proof.
+  intros D r l e Hin. destruct (split_at_In r l Hin) as [p [q Hs]].
+  unfold hoist_one. rewrite Hs. simpl.
+  destruct (split_at_spec _ _ _ _ Hs) as [Hl Hp].
+  exists p, (firstn (e - (length p + 1)) q), (skipn (e - (length p + 1)) q).
+  rewrite firstn_skipn. unfold lift. tauto.
+Qed.
+
+Lemma hoist_one_absent : forall D r l e, ~ In r l -> fst (hoist_one D r l e) = l.
+Proof.
+  intros D r l e Hn. unfold hoist_one. destruct (split_at r l) as [[p q]|] eqn:Hs; [|reflexivity].
+  exfalso. apply Hn. destruct (split_at_spec _ _ _ _ Hs) as [Hl _]. subst. apply in_app_iff. simpl. tauto.
+Qed.
+
+Lemma In_dec_node : forall (x : node) l, In x l \/ ~ In x l.
+Proof. intros. destruct (memb x l) eqn:E; [left; apply memb_In; exact E | right; apply memb_false; exact E]. Qed.
+
+Lemma hoist_one_perm : forall D r l e, Permutation (fst (hoist_one D r l e)) l.
+Proof.
+  intros D r l e. destruct (In_dec_node r l) as [Hin | Hn].
+  - destruct (hoist_one_shape D r l e Hin) as [pre [mid [post [Hl [_ Hh]]]]]. rewrite Hh. rewrite Hl at 1. apply lift_perm.
+  - rewrite hoist_one_absent by exact Hn. apply Permutation_refl.
+Qed.
+
+(* D marks at least the successors of r and of marked nodes *)
+Definition succ_closed (g : graph) (r : node) (D : node -> bool) : Prop :=
+  forall a b, In (a, b) g -> (a = r \/ D a = true) -> D b = true.
+
+Lemma hoist_one_topo : forall g D r l e,
+  succ_closed g r D -> topo g l -> topo g (fst (hoist_one D r l e)).
+Proof.
+  intros g D r l e Hc [Hn He]. split.
+  - eapply Permutation_NoDup; [apply Permutation_sym; apply hoist_one_perm | exact Hn].
+  - intros a b Hab. destruct (In_dec_node r l) as [Hin | Hnin].
+    + destruct (hoist_one_shape D r l e Hin) as [pre [mid [post [Hl [_ Hh]]]]]. rewrite Hh.
+      apply lift_prec_keep; [rewrite <- Hl; apply He; exact Hab|].
+      intros [_ [Db Ha]]. assert (D b = true) by (apply (Hc a b Hab); tauto). congruence.
+    + rewrite hoist_one_absent by exact Hnin. apply He. exact Hab.
+Qed.
+
+Lemma prec_total : forall l a b, In a l -> In b l -> a <> b -> prec l a b \/ prec l b a.
+Proof.
+  induction l as [|x t IH]; simpl; intros a b Ha Hb Hne; [tauto|].
+  destruct Ha as [Ha | Ha]; destruct Hb as [Hb | Hb].
+  - congruence.
+  - left. left. tauto.
+  - right. left. tauto.
+  - destruct (IH a b Ha Hb Hne); tauto.
+Qed.
+
+(* an inversion produced by one step: the node that fell behind is the loop node or marked, the
+   node that went up is unmarked (and is not the loop node) *)
+Lemma hoist_one_inversion : forall D r l e a b,
+  NoDup l -> prec l a b -> prec (fst (hoist_one D r l e)) b a ->
+  (a = r \/ D a = true) /\ D b = false /\ b <> r.
+Proof.
+  intros D r l e a b Hn Hab Hba.
+  destruct (In_dec_node r l) as [Hin | Hnin].
+  - destruct (hoist_one_shape D r l e Hin) as [pre [mid [post [Hl [Hrp Hh]]]]].
+    assert (Hn' : NoDup (lift D pre r mid post)).
+    { eapply Permutation_NoDup; [apply Permutation_sym; apply lift_perm | rewrite <- Hl; exact Hn]. }
+    rewrite Hh in Hba.
+    destruct (In_dec_node b mid) as [Hbm | Hbm].
+    + destruct (D b) eqn:Db.
+      * exfalso. eapply prec_asym; [exact Hn' | exact Hba|].
+        apply lift_prec_keep; [rewrite <- Hl; exact Hab | intros [_ [F _]]; congruence].
+      * assert (Hbr : b <> r).
+        { intros E. subst b. rewrite Hl in Hn. apply NoDup_remove_2 in Hn. apply Hn.
+          rewrite !in_app_iff. tauto. }
+        destruct (Pos.eq_dec a r) as [E | Hne]; [tauto|].
+        destruct (D a) eqn:Da; [tauto|].
+        exfalso. eapply prec_asym; [exact Hn' | exact Hba|].
+        apply lift_prec_keep; [rewrite <- Hl; exact Hab|]. intros [_ [_ [E | [_ E]]]]; congruence.
+    + exfalso. eapply prec_asym; [exact Hn' | exact Hba|].
+      apply lift_prec_keep; [rewrite <- Hl; exact Hab | tauto].
+  - rewrite hoist_one_absent in Hba by exact Hnin. exfalso. eapply prec_asym; eassumption.
+Qed.
+
+(* ------------------------------------------------------------------------- *)
+(* the whole pass                                                             *)
+(* ------------------------------------------------------------------------- *)
+
+Lemma descb_closed : forall g l0 r, topo g l0 -> succ_closed g r (descb g l0 r).
+Proof.
+  intros g l0 r Ht a b Hab [E | Ha]; apply (descb_iff g l0 r b Ht).
+  - subst. apply reach_edge. exact Hab.
+  - apply (descb_iff g l0 r a Ht) in Ha. eapply reach_snoc; eassumption.
+Qed.
+
+Lemma hoist_loops_perm : forall g l0 rl l e, Permutation (hoist_loops g l0 rl l e) l.
+Proof.
+  intros g l0. induction rl as [|r rs IH]; simpl; intros l e; [apply Permutation_refl|].
+  destruct (hoist_one (descb g l0 r) r l e) as [l' e'] eqn:H.
+  eapply perm_trans; [apply IH|].
+  replace l' with (fst (hoist_one (descb g l0 r) r l e)) by (rewrite H; reflexivity).
+  apply hoist_one_perm.
+Qed.
+
+Lemma hoist_loops_topo : forall g l0 rl l e, topo g l0 -> topo g l -> topo g (hoist_loops g l0 rl l e).
+Proof.
+  intros g l0. induction rl as [|r rs IH]; simpl; intros l e H0 Hl; [exact Hl|].
+  destruct (hoist_one (descb g l0 r) r l e) as [l' e'] eqn:H.
+  apply IH; [exact H0|].
+  replace l' with (fst (hoist_one (descb g l0 r) r l e)) by (rewrite H; reflexivity).
+  apply hoist_one_topo; [apply descb_closed; exact H0 | exact Hl].
+Qed.
+
+Lemma hoist_loops_inversion : forall g l0 rl l e a b,
+  topo g l0 -> NoDup l -> prec l a b -> prec (hoist_loops g l0 rl l e) b a ->
+  exists r, In r rl /\ (a = r \/ reach g r a) /\ ~ reach g r b /\ b <> r.
+Proof.
+  intros g l0. induction rl as [|r rs IH]; simpl; intros l e a b H0 Hn Hab Hba.
+  - exfalso. eapply prec_asym; eassumption.
+  - destruct (hoist_one (descb g l0 r) r l e) as [l' e'] eqn:H.
+    assert (Hl' : l' = fst (hoist_one (descb g l0 r) r l e)) by (rewrite H; reflexivity).
+    assert (Hp : Permutation l' l) by (rewrite Hl'; apply hoist_one_perm).
+    assert (Hn' : NoDup l') by (eapply Permutation_NoDup; [apply Permutation_sym; exact Hp | exact Hn]).
+    destruct (precb l' a b) eqn:Hpb.
+    + apply precb_iff in Hpb. destruct (IH l' e' a b H0 Hn' Hpb Hba) as [r' [Hr' Hrest]].
+      exists r'. tauto.
+    + assert (Hne : a <> b) by (intros E; rewrite E in Hab; exact (prec_irrefl _ _ Hn Hab)).
+      destruct (prec_In _ _ _ Hab) as [Ha Hb].
+      assert (Hinv : prec l' b a).
+      { destruct (prec_total l' a b) as [Hc | Hc].
+        - eapply Permutation_in; [apply Permutation_sym; exact Hp | exact Ha].
+        - eapply Permutation_in; [apply Permutation_sym; exact Hp | exact Hb].
+        - exact Hne.
+        - apply precb_iff in Hc. congruence.
+        - exact Hc. }
+      rewrite Hl' in Hinv.
+      destruct (hoist_one_inversion _ _ _ _ _ _ Hn Hab Hinv) as [Hda [Hdb Hbr]].
+      exists r. split; [tauto|]. split; [|split].
+      * destruct Hda as [E | Hda]; [tauto|]. right. apply (descb_iff g l0 r a H0). exact Hda.
+      * intros Hr. apply (descb_iff g l0 r b H0) in Hr. congruence.
+      * exact Hbr.
+Qed.
+
+(* hoisting neither loses nor duplicates a statement *)
+Theorem hoist_perm : forall g loops l, Permutation (hoist g loops l) l.
+Proof. intros. unfold hoist. apply hoist_loops_perm. Qed.
+
+(* the hoisted order is still a topological order: every statement comes after every statement it
+   depends on *)
+Theorem hoist_topo : forall g loops l, topo g l -> topo g (hoist g loops l).
+Proof. intros. unfold hoist. apply hoist_loops_topo; assumption. Qed.
+
+Corollary hoist_deps_first : forall g loops l y x,
+  topo g l -> reach g y x -> prec (hoist g loops l) y x.
+Proof. intros g loops l y x Ht Hr. eapply reach_prec; [apply hoist_topo; exact Ht | exact Hr]. Qed.
+
+(* a statement that ends above a node it used to be below does not depend on it - in particular a
+   statement lifted above a loop opening does not transitively depend on that loop *)
+Theorem hoist_indep : forall g loops l r x,
+  topo g l -> prec l r x -> prec (hoist g loops l) x r -> ~ reach g r x.
+Proof.
+  intros g loops l r x Ht _ Hxr Hreach.
+  pose proof (hoist_topo g loops l Ht) as Ht'.
+  eapply prec_asym; [apply Ht' | exact Hxr | eapply reach_prec; eassumption].
+Qed.
+
+(* every change of relative order is a lift over a loop: if b overtakes a, then a is a loop opening
+   or depends on one, and b does not depend on that loop *)
+Theorem hoist_inversions : forall g loops l a b,
+  topo g l -> prec l a b -> prec (hoist g loops l) b a ->
+  exists r, In r loops /\ (a = r \/ reach g r a) /\ ~ reach g r b /\ b <> r.
+Proof.
+  intros g loops l a b Ht Hab Hba. unfold hoist in Hba.
+  destruct (hoist_loops_inversion g l (rev loops) l (length l) a b Ht (proj1 Ht) Hab Hba) as [r [Hr Hrest]].
+  exists r. split; [apply in_rev; exact Hr | exact Hrest].
+Qed.
